@@ -20,14 +20,15 @@ from harness import lattice as hl
 
 INVS = ['OrderIsBijection', 'RoundTrip', 'HelixFormula', 'StdOrderMeaning', 'EachPairExactlyOnce',
         'InfiniteBoundaryPairInOneCell', 'FlipSymmetry', 'AnchorsArePlacements', 'StrengthIndex', 'CountNeighbors']
-ACTIONS = ['ChooseClass', 'ChooseSize', 'ChooseVariant', 'ChooseBC', 'Build', 'QIndex', 'QCouplings', 'QMulti',
-           'QNeighbors', 'QValues']
+ACTIONS = ['ChooseClass', 'ChooseSize', 'ChooseVariant', 'ChooseBC', 'Build', 'EnlargeMPSUnitCell', 'GroupSites', 'QIndex',
+           'QCouplings', 'QMulti', 'QNeighbors', 'QValues']
 WORKERS = 8
-COVERAGE_RUNS = ('orders-1d', 'neighbors', 'couplings-1d', 'helical', 'irregular')  # together they take every action
+COVERAGE_RUNS = ('orders-1d', 'neighbors', 'couplings-1d', 'helical', 'derive')  # together they take every action
 
 BASE = dict(Classes=set(), MaxL=3, MaxLx=2, MaxLy=2, NLegs={3}, MaxN=12, MaxShift=1, BcMode='all',
             BcMpsSet={'finite', 'infinite'}, OrderMode='basic', PermMults={7}, Queries=set(), DxCap=4, MultiMod=7,
-            MultiRes=0, BFMaxN=16, MaxRemove=1, MaxAdd=1, IrrMod=1, IrrRes=0, NLegSpacing='squeezed')
+            MultiRes=0, BFMaxN=16, MaxRemove=1, MaxAdd=1, IrrMod=1, IrrRes=0, NLegSpacing='squeezed',
+            DxExtra=0, EnlargeSet=set(), GroupSet=set())
 ALLQ = {'index', 'couplings', 'multi', 'neighbors', 'values'}
 REG1D = {'Chain', 'Ladder', 'NLegLadder'}
 FMT = {'finite', 'infinite', 'segment'}
@@ -69,7 +70,7 @@ def groups(tier, seed):
         add('neighbors', Classes=REG1D | {'Square', 'Triangular', 'Honeycomb', 'Kagome', 'Multi'}, MaxL=2, MaxLx=2, MaxLy=1,
             MaxN=12, MaxShift=0, BcMpsSet={'finite'}, PermMults=set(), Queries={'neighbors', 'index'})
         # every boundary condition x bc_MPS x (u1, u2, dx): couplings
-        add('couplings-1d', Classes=REG1D, MaxL=4, MaxN=12, Queries=ALLQ, BcMpsSet=FMT)
+        add('couplings-1d', Classes=REG1D, MaxL=4, MaxN=12, Queries=ALLQ, BcMpsSet=FMT, DxExtra=1, DxCap=5)
         add('couplings-square', Classes={'Square'}, MaxLx=3, MaxLy=3, MaxN=9, Queries=ALLQ, MultiMod=47)
         add('couplings-cell', Classes={'Honeycomb', 'Kagome', 'General'}, MaxLx=2, MaxLy=2, MaxN=6, Queries=ALLQ, MultiMod=151,
             PermMults=set())
@@ -77,6 +78,10 @@ def groups(tier, seed):
         add('multispecies', Classes={'Multi'}, MaxL=3, MaxN=6, Queries=ALLQ - {'multi'}, DxCap=1, PermMults=set())
         add('irregular', Classes={'Irregular'}, MaxL=3, MaxN=6, Queries=ALLQ, DxCap=2, MultiMod=61, IrrMod=101, PermMults=set())
         add('helical', Classes={'Helical'}, MaxN=12, Queries=ALLQ, MultiMod=61)
+        # enlarge_mps_unit_cell / with_grouped_sites applied to built lattices of every class, all queries again
+        add('derive', Classes={'Chain', 'Ladder', 'Square', 'Honeycomb', 'Multi', 'Irregular', 'Helical'}, MaxL=3, MaxN=8,
+            BcMode='periodic', BcMpsSet=FMT, Queries=ALLQ - {'neighbors'}, DxCap=2, MultiMod=101, IrrMod=23, PermMults=set(),
+            EnlargeSet={2}, GroupSet={2, 3})
     else:
         add('orders-1d', Classes=REG1D, MaxL=6, NLegs={3, 4}, MaxN=24, BcMode='periodic', OrderMode='all', PermMults=pm2,
             Queries={'index', 'values'}, BcMpsSet=FMT)
@@ -84,7 +89,7 @@ def groups(tier, seed):
             MaxN=48, BcMode='periodic', OrderMode='all', PermMults=pm2, Queries={'index', 'values'}, BFMaxN=0)
         add('neighbors', Classes=REG1D | {'Square', 'Triangular', 'Honeycomb', 'Kagome', 'Multi'}, MaxL=2, MaxLx=2, MaxLy=2,
             NLegs={3, 4}, MaxN=12, MaxShift=0, BcMpsSet={'finite'}, PermMults=set(), Queries={'neighbors', 'index'})
-        add('couplings-1d', Classes=REG1D, MaxL=6, NLegs={3, 4}, MaxN=24, Queries=ALLQ, BcMpsSet=FMT, DxCap=6, BFMaxN=24)
+        add('couplings-1d', Classes=REG1D, MaxL=6, NLegs={3, 4}, MaxN=24, Queries=ALLQ, BcMpsSet=FMT, DxCap=7, DxExtra=1, BFMaxN=24)
         add('couplings-square', Classes={'Square', 'Triangular'}, MaxLx=4, MaxLy=4, MaxN=16, Queries=ALLQ, MaxShift=2, MultiMod=23,
             BcMpsSet=FMT, BFMaxN=12)
         add('couplings-cell', Classes={'Honeycomb', 'Kagome', 'General'}, MaxLx=3, MaxLy=3, MaxN=18, Queries=ALLQ, MultiMod=61,
@@ -95,6 +100,9 @@ def groups(tier, seed):
         add('multispecies', Classes={'Multi'}, MaxL=4, MaxN=16, Queries=ALLQ, DxCap=2, MultiMod=211)
         add('irregular', Classes={'Irregular'}, MaxL=4, MaxN=8, Queries=ALLQ, DxCap=2, MultiMod=61, IrrMod=83, MaxRemove=2, MaxAdd=2)
         add('helical', Classes={'Helical'}, MaxLx=3, MaxLy=3, MaxN=27, Queries=ALLQ, MultiMod=61, BFMaxN=12)
+        add('derive', Classes={'Chain', 'Ladder', 'NLegLadder', 'Square', 'Honeycomb', 'Kagome', 'Multi', 'Irregular', 'Helical'},
+            MaxL=4, MaxLx=3, MaxLy=2, MaxN=12, BcMpsSet=FMT, Queries=ALLQ - {'neighbors'}, DxCap=2, MultiMod=101, IrrMod=41,
+            PermMults=set(), EnlargeSet={2, 3}, GroupSet={2, 3}, BFMaxN=12)
     return g
 
 
@@ -116,7 +124,8 @@ class Replayer:
         cfg = st['cfg']
         s = dict(kind='replay', spec='Lattice', op=op, clause=clause, cls=cfg['cls'], base=cfg['base'],
                  extended=cfg['bcmps'] != 'finite', shifted=any(x != 0 for x in cfg['shift']),
-                 open_x=bool(cfg['bc']) and cfg['bc'][0] == 'open', dim=len(cfg['Ls']), ordkind=cfg['ord']['kind'])
+                 open_x=bool(cfg['bc']) and cfg['bc'][0] == 'open', dim=len(cfg['Ls']), ordkind=cfg['ord']['kind'],
+                 enlarged=cfg.get('enl', 1) > 1, parent_cls=(cfg.get('parent') or {}).get('cls', ''))
         s.update(extra)
         return s
 
@@ -175,12 +184,31 @@ class Replayer:
     def op_build(self, st, lat, key):
         cfg = st['cfg']
         exp = np.array(st['order'], dtype=np.intp).reshape(len(st['order']), len(cfg['Ls']) + 1)
+        flags = getattr(lat, '_verif_flags', {})
+        if 'multi_ignores_simple_order' in flags:
+            # reported, then the replay goes on with the intended order (set by harness/lattice.py)
+            self.fail(st, 'build', 'multi-ignores-simple-order', flags['multi_ignores_simple_order'], exp.tolist())
         if lat.N_sites != len(exp):
             return self.fail(st, 'build', 'N_sites', int(lat.N_sites), len(exp))
         if cfg['ord']['kind'] != 'perm':
             got = np.asarray(lat.order)
             if got.shape != exp.shape or not np.array_equal(got, exp):
                 return self.fail(st, 'build', 'order', got.tolist(), exp.tolist(), ordname=cfg['ord'].get('name', ''))
+        nu = max(int(x[-1]) for x in st['full']) + 1
+        if cfg['cls'] != 'Helical' and (tuple(lat.Ls) != tuple(cfg['Ls']) or len(lat.unit_cell) < nu):
+            return self.fail(st, 'build', 'shape', [list(lat.Ls), len(lat.unit_cell)], [cfg['Ls'], nu])
+        if cfg['cls'] == 'Helical' and tuple(lat.regular_lattice.Ls) != tuple(cfg['Ls']):
+            return self.fail(st, 'build', 'shape', list(lat.regular_lattice.Ls), cfg['Ls'])
+        # ordering(order) of the (possibly enlarged) lattice: the named order of its present shape
+        reorder = st['last'].get('reorder', st['order'])
+        if cfg['ord']['kind'] != 'perm' and cfg['cls'] != 'Grouped' and len(reorder) > 0:
+            try:
+                got = np.asarray(lat.ordering(hl.order_arg(cfg['ord'])))
+            except Exception as e:
+                return self.fail(st, 'build', 'ordering-exception', repr(e), 'order', exc=type(e).__name__)
+            want = np.array(reorder, dtype=np.intp)
+            if got.shape != want.shape or not np.array_equal(got, want):
+                return self.fail(st, 'build', 'ordering', got.tolist(), want.tolist(), ordname=cfg['ord'].get('name', ''))
         if self.nstates % 97 == 3 and len(self.ctx.samples) < 2:
             self.ctx.sample(dict(cfg=cfg, order=st['order']))
 
@@ -215,12 +243,14 @@ class Replayer:
             if np.asarray(gi).tolist() != list(exp) or np.asarray(gl).tolist() != explat:
                 return self.fail(st, 'index', 'mps_lat_idx_fix_u', dict(u=u, idx=np.asarray(gi).tolist(), lat=np.asarray(gl).tolist()),
                                  dict(idx=list(exp), lat=explat))
-        g = sorted(np.asarray(lat.mps_idx_fix_u(None)).tolist())
-        if g != list(range(N)):
-            return self.fail(st, 'index', 'mps_idx_fix_u-all', g, list(range(N)))
         sites = lat.mps_sites()
         if len(sites) != N or any(sites[i] is not lat.unit_cell[m2l[i - lo][-1]] for i in range(N)):
             return self.fail(st, 'index', 'mps_sites', len(sites), N)
+        g = np.asarray(lat.mps_idx_fix_u(None)).tolist()
+        if sorted(g) != list(range(N)):
+            return self.fail(st, 'index', 'mps_idx_fix_u-all', g, list(range(N)))
+        if g != list(range(N)):  # documented: "Ordered ascending"
+            return self.fail(st, 'index', 'mps_idx_fix_u-all-order', g, list(range(N)))
 
     # -- couplings
     def op_couplings(self, st, lat, key):
